@@ -243,6 +243,8 @@ def run_shard(ctx: Ctx, rec: Recorder) -> None:
                 rec.fail({"kw": "vf_unknown_keyword", "scheme": scheme, "via": "pool_kwargs"}, "unknown-keyword-ignored", {"kw": "vf_unknown_keyword"}, "an unknown keyword is silently dropped from the pool identity")
     # (c) end to end: a differing keyword must dial a new socket; an equal one must reuse
     end_to_end(ctx, rec)
+    if ctx.shard == 0:
+        context_state_not_identity(ctx, rec)
 
 
 E2E = {
@@ -289,6 +291,43 @@ def end_to_end(ctx: Ctx, rec: Recorder) -> None:
                 n = len(net.dials)
                 if n != 2:
                     rec.fail({"kw": kw, "scheme": scheme, "via": "e2e"}, "e2e-connection-sharing", {"kw": kw, "dials": n}, f"{kw}: requests v1,v1,v2,v1 used {n} sockets (expected 2: one per setting)")
+                pm.clear()
+
+
+def context_state_not_identity(ctx: Ctx, rec: Recorder) -> None:
+    """A manager built around a caller-supplied SSLContext: connections made with per-request cert_reqs overrides rewrite
+    that context (urllib3 does so itself); the identity of the manager's own pool must not follow that mutable state."""
+    import ssl
+
+    import urllib3
+    from urllib3.util.ssl_ import create_urllib3_context
+    from vf import netsim, wire
+
+    class Srv:
+        def on_request(self, net: typing.Any, sc: typing.Any, req: typing.Any) -> None:
+            sc.write(wire.build_response(200, body=b"ok"))
+
+    for override in (ssl.CERT_NONE, "CERT_NONE", ssl.CERT_OPTIONAL):
+        for order in ("default-first", "override-first"):
+            case = {"kw": "cert_reqs", "scheme": "https", "via": "context-state", "override": str(override), "order": order}
+            rec.case(["ctx-state", str(override), order])
+            rec.mon("context_state_sequence")
+            with netsim.Net(Srv(), fake_tls="inner") as net:
+                sc = create_urllib3_context()
+                sc.check_hostname = False
+                pm = urllib3.PoolManager(ssl_context=sc)
+                url = "https://ctx.test/x"
+                d0 = pm.connection_from_url(url) if order == "default-first" else None
+                o = pm.connection_from_url(url, pool_kwargs={"cert_reqs": override})
+                try:
+                    o.request("GET", "/x", retries=False).release_conn()  # a real connect: urllib3 writes verify_mode into sc
+                except Exception as e:  # noqa: BLE001
+                    rec.count("context_state_request_failed")
+                d1 = pm.connection_from_url(url)
+                if d1 is o:
+                    rec.fail(case, "override-shares-default-pool", {"kw": "cert_reqs", "via": "context-state", "value": str(override)}, f"after a connection made with cert_reqs={override!r} the manager's own settings map to that override's pool")
+                elif d0 is not None and d1 is not d0:
+                    rec.fail(case, "equal-settings-different-pool", {"kw": "cert_reqs", "via": "context-state"}, "the manager's own settings no longer map to their pool after an override connected")
                 pm.clear()
 
 
